@@ -58,6 +58,7 @@ Earlier one-step results (kept; first half of this file):
   root = the graph-level `DecidedYes/DecidedNo`; every known later root has a stored vote on every
   undecided subject in both, equal to the graph-level `voteYes`), the next `processRoot` and the next
   `Process` step give the same outcome and persisted state.
+Composition with the vector index (`hobs`, `hvals`, `hbound` discharged; the restarted instance keeps the persisted index state and re-indexes nothing): `Consensus.indexed_restart_invisible_partial` (Props/Consensus.lean).
 -/
 namespace C08
 open Model.Pos Model.Election Model.Orderer ElectionRules ElectionRefine OrdererRestart
